@@ -3,8 +3,8 @@
    \NNN, \c, %[-]WIDTHdirective); [render_ref] its reference rendering.  [run_printf] is the model of
    FormatStringParser + Printf::print.  [value d] is the text of directive d for the file at hand (the
    path-valued ones are modelled in PrintfValue.v, the numeric ones come from the record C13 selects). *)
-Require Import Tables TablesOk Printf PrintfSpec PrintfProofs Entry EntryProofs.
-From Coq Require Import List Arith Bool.
+Require Import Tables TablesOk Printf PrintfSpec PrintfProofs Entry EntryProofs PathModel Paths PathsProofs PrintfValue.
+From Coq Require Import List Arith Bool Lia.
 Import ListNotations.
 
 (* every escape and %% is replaced by its character, every directive by its padded value, every other
@@ -34,6 +34,16 @@ Theorem C16_link_target : forall cfg depth v, coherent v ->
   printf_l_applies cfg depth v = match seen cfg depth v with Some r => is_lnk (st_type r) | None => false end.
 Proof. exact lname_only_unresolved. Qed.
 Print Assumptions C16_link_target.
+
+(* %H is the starting point exactly as it was given, for every entry found under it *)
+Theorem C16_H_as_given : forall root names, Forall relname names ->
+  pv_H (entry_path root names) (length root) = Some root.
+Proof.
+  intros root names H. destruct (entry_path_prefix names root H) as [t E]. unfold pv_H. rewrite E.
+  rewrite app_length. assert (Hle : (length root <=? length root + length t) = true) by (apply Nat.leb_le; lia). rewrite Hle.
+  f_equal. rewrite firstn_app, Nat.sub_diag, firstn_all. cbn [firstn]. apply app_nil_r.
+Qed.
+Print Assumptions C16_H_as_given.
 
 (* non-vacuity:  "[%-5d|%3f]\t%%\101\\"  with %d = "2" and %f = "name" *)
 Example C16_witness :
